@@ -8,7 +8,10 @@ what `try_set_min/max` produce: there the midpoint is a grid point strictly insi
 cuts the interval to `[min, mid]`, the right one to `[mid, max]`, and every propagator that only
 shrinks keeps the grid.  Measure: `fsize` = Σ over the decision variables of the number of steps
 `(max − min)/step` resp. of the number of values; depth fuel `2·fsize + 1` suffices
-(`fsolve_depth_bound`).
+(`fsolve_depth_bound`).  On the grid every EVENT strictly shrinks a variable (`UG`, `ugRel`), so one
+propagation needs at most `|agenda| + P·fsize + 1` calls of `prune` (`fpropagate_terminates`) and
+`fsolve` ends in `sol` or `nosol` with the budgets `2·fsize + 1` / `pfNeed P fsize`
+(`fsolve_terminates`).
 -/
 import SelenModel.Lemmas.FloatEngine
 import SelenModel.Lemmas.Termination
@@ -652,5 +655,437 @@ theorem fsolve_depth_bound (n : Nat) (κ : Nat → Bool) (pol : Policy) (pf fuel
     | some q =>
       simp only
       exact (search_depth n κ pol pf fuel).1 ps st' pc1 0 hsh inv.1 hst' (by omega)
+
+/-! ### every event strictly shrinks a variable (grid stores)
+
+On grid stores a successful bound update that raises an event removes at least one step of a float
+interval (the new bound is a grid point different from the old one, also in the "quantization
+mismatch" arm of `try_set_max`, which needs `max − min ≥ step/2`, i.e. `≥ step` on the grid) or at
+least one value of an integer domain.  The tolerance arms raise no event. -/
+
+namespace RatL
+theorem intCast_mul_lt_iff {a b : Int} {s : Rat} (hs : 0 < s) : (a : Rat) * s < (b : Rat) * s ↔ a < b := by
+  constructor
+  · intro h
+    apply Classical.byContradiction
+    intro hn
+    have := (intCast_mul_le_iff hs).mpr (show b ≤ a by omega)
+    exact absurd h (Rat.not_lt.mpr this)
+  · intro h
+    apply Rat.not_le.mp
+    intro hle
+    have := (intCast_mul_le_iff hs).mp hle
+    omega
+theorem intCast_mul_inj {a b : Int} {s : Rat} (hs : 0 < s) (h : (a : Rat) * s = (b : Rat) * s) : a = b := by
+  have h1 : a ≤ b := (intCast_mul_le_iff hs).mp (show (a : Rat) * s ≤ (b : Rat) * s by rw [h]; exact Rat.le_refl)
+  have h2 : b ≤ a := (intCast_mul_le_iff hs).mp (show (b : Rat) * s ≤ (a : Rat) * s by rw [h]; exact Rat.le_refl)
+  omega
+end RatL
+
+theorem vsize_mono_grid (κ : Nat → Bool) {st st' : FStore Rat} (hg : GridK κ st) (hw : Within st st') (i : Nat) :
+    vsize (st' i) ≤ vsize (st i) :=
+  vsize_mono (hw i) (fun iv hx => by have := hg i; rw [hx] at this; exact this.2.1)
+
+/-- strictness: on a grid store, new events mean that some variable got strictly smaller -/
+def UStr (κ : Nat → Bool) (c c' : FCtx Rat) : Prop :=
+  GridK κ c.st → c'.ev ≠ c.ev → ∃ i, vsize (c'.st i) < vsize (c.st i)
+
+/-- grid stores stay on the grid, domains only shrink, and an event strictly shrinks a variable -/
+def UG (κ : Nat → Bool) (c c' : FCtx Rat) : Prop := USh VGrid κ c c' ∧ UStr κ c c'
+
+theorem UG.refl (κ : Nat → Bool) (c : FCtx Rat) : UG κ c c := ⟨USh.refl κ c, fun _ h => absurd rfl h⟩
+
+theorem UG.trans {κ : Nat → Bool} {a b c : FCtx Rat} (h1 : UG κ a b) (h2 : UG κ b c) : UG κ a c := by
+  refine ⟨USh.trans h1.1 h2.1, ?_⟩
+  intro hg hne
+  obtain ⟨gb, wab⟩ := h1.1 hg
+  obtain ⟨gc, wbc⟩ := h2.1 gb
+  by_cases hb : b.ev = a.ev
+  · obtain ⟨i, hi⟩ := h2.2 gb (by rw [hb]; exact hne)
+    exact ⟨i, Nat.lt_of_lt_of_le hi (vsize_mono_grid κ hg wab i)⟩
+  · obtain ⟨i, hi⟩ := h1.2 hg hb
+    exact ⟨i, Nat.lt_of_le_of_lt (vsize_mono_grid κ gb wbc i) hi⟩
+
+theorem ustr_int_upd (κ : Nat → Bool) (c : FCtx Rat) (i : Nat) (d : List Int) (f : Int → Bool) (ev : List Nat)
+    (hd : c.st i = .int d) (w : Int) (hw : w ∈ d) (hf : f w = false) :
+    UStr κ c { st := updF c.st i (.int (d.filter f)), ev := ev } := by
+  intro _ _
+  refine ⟨i, ?_⟩
+  simp only [updF, if_true, hd, vsize]
+  exact sublist_length_lt List.filter_sublist w hw (by simp [hf])
+
+theorem intSetMax_ustr (κ : Nat → Bool) (c c' : FCtx Rat) (i : Nat) (d : List Int) (m : Int) (r : FVal Rat)
+    (hd : c.st i = .int d) (h : c.intSetMax i d m = some (c', r)) : UStr κ c c' := by
+  intro hg
+  have g := hg i
+  rw [hd] at g
+  revert hg
+  show UStr κ c c'
+  simp only [FCtx.intSetMax] at h
+  split at h; · cases h
+  split at h
+  · split at h; · cases h
+    rename_i hlt _
+    cases h
+    exact ustr_int_upd κ c i d _ _ hd (ilmax d) (ilmax_mem d g.2.1) (by simpa using hlt)
+  · cases h; exact fun _ hne => absurd rfl hne
+
+theorem intSetMin_ustr (κ : Nat → Bool) (c c' : FCtx Rat) (i : Nat) (d : List Int) (m : Int) (r : FVal Rat)
+    (hd : c.st i = .int d) (h : c.intSetMin i d m = some (c', r)) : UStr κ c c' := by
+  intro hg
+  have g := hg i
+  rw [hd] at g
+  revert hg
+  show UStr κ c c'
+  simp only [FCtx.intSetMin] at h
+  split at h; · cases h
+  split at h
+  · split at h; · cases h
+    rename_i hlt _
+    cases h
+    exact ustr_int_upd κ c i d _ _ hd (ilmin d) (ilmin_mem d g.2.1) (by simpa using hlt)
+  · cases h; exact fun _ hne => absurd rfl hne
+
+/-- a float interval on the grid whose maximum moved to a smaller grid point has fewer steps -/
+theorem vsize_lt_of_max (iv iv' : FI Rat) (hg : iv.OnGrid) (hg' : iv'.OnGrid) (hs : iv'.step = iv.step)
+    (hmin : iv'.min = iv.min) (hmax : iv'.max < iv.max) : vsize (.flt iv') < vsize (.flt iv) := by
+  obtain ⟨hs0, k, l, hkl, hk, hl⟩ := hg
+  obtain ⟨hs0', k', l', hkl', hk', hl'⟩ := hg'
+  rw [hs] at hk' hl'
+  rw [vsize_grid iv hs0 k l hk hl, vsize_grid iv' hs0' k' l' (by rw [hs]; exact hk') (by rw [hs]; exact hl')]
+  have e : k' = k := RatL.intCast_mul_inj hs0 (by rw [← hk', ← hk, hmin])
+  have : l' < l := (RatL.intCast_mul_lt_iff hs0).mp (by rw [← hl', ← hl]; exact hmax)
+  omega
+
+theorem vsize_lt_of_min (iv iv' : FI Rat) (hg : iv.OnGrid) (hg' : iv'.OnGrid) (hs : iv'.step = iv.step)
+    (hmax : iv'.max = iv.max) (hmin : iv.min < iv'.min) : vsize (.flt iv') < vsize (.flt iv) := by
+  obtain ⟨hs0, k, l, hkl, hk, hl⟩ := hg
+  obtain ⟨hs0', k', l', hkl', hk', hl'⟩ := hg'
+  rw [hs] at hk' hl'
+  rw [vsize_grid iv hs0 k l hk hl, vsize_grid iv' hs0' k' l' (by rw [hs]; exact hk') (by rw [hs]; exact hl')]
+  have e : l' = l := RatL.intCast_mul_inj hs0 (by rw [← hl', ← hl, hmax])
+  have : k < k' := (RatL.intCast_mul_lt_iff hs0).mp (by rw [← hk', ← hk]; exact hmin)
+  omega
+
+theorem trySetMax_f_ustr (κ : Nat → Bool) (c c' : FCtx Rat) (i : Nat) (m : Rat) (r : FVal Rat)
+    (h : c.trySetMax i (.f m) = some (c', r)) : UStr κ c c' := by
+  cases hx : c.st i with
+  | int d =>
+    simp only [FCtx.trySetMax, hx] at h
+    exact intSetMax_ustr κ c c' i d _ r hx h
+  | flt iv =>
+    intro hg
+    have g := hg i
+    rw [hx] at g
+    obtain ⟨hb, hgr⟩ := g
+    have hv := hgr.valid
+    simp only [FCtx.trySetMax, hx] at h
+    have s := FCtx.fltSetMax_spec c i iv m hv
+    rw [h] at s
+    rcases s with ⟨rfl, _, _⟩ | ⟨rfl, _, _, _, hwid⟩ | ⟨nm, rfl, _, _, _, _, hlt, _, hnm⟩
+    · exact fun hne => absurd rfl hne
+    · intro _
+      refine ⟨i, ?_⟩
+      simp only [updF, if_true, hx]
+      have hg' : (VGrid true (.flt { iv with max := iv.min })) := vgrid_class.setMaxMin iv ⟨rfl, hgr⟩
+      apply vsize_lt_of_max iv _ hgr hg'.2 rfl rfl
+      show iv.min < iv.max
+      -- on the grid `max − min ≥ step/2` forces `max > min`
+      obtain ⟨hs0, k, l, hkl, hk, hl⟩ := hgr
+      rw [hk, hl]
+      apply (RatL.intCast_mul_lt_iff hs0).mpr
+      apply Classical.byContradiction
+      intro hn
+      have : l = k := by omega
+      subst this
+      rw [hk, hl] at hwid
+      grind
+    · intro _
+      refine ⟨i, ?_⟩
+      simp only [updF, if_true, hx]
+      have hg' := vgrid_class.setMax iv m ⟨rfl, hgr⟩
+      rw [← hnm.2] at hg'
+      exact vsize_lt_of_max iv _ hgr hg'.2 rfl rfl hlt
+
+theorem trySetMin_f_ustr (κ : Nat → Bool) (c c' : FCtx Rat) (i : Nat) (m : Rat) (r : FVal Rat)
+    (h : c.trySetMin i (.f m) = some (c', r)) : UStr κ c c' := by
+  cases hx : c.st i with
+  | int d =>
+    simp only [FCtx.trySetMin, hx] at h
+    exact intSetMin_ustr κ c c' i d _ r hx h
+  | flt iv =>
+    intro hg
+    have g := hg i
+    rw [hx] at g
+    obtain ⟨hb, hgr⟩ := g
+    have hv := hgr.valid
+    simp only [FCtx.trySetMin, hx] at h
+    have s := FCtx.fltSetMin_spec c i iv m hv
+    rw [h] at s
+    rcases s with ⟨rfl, _, _⟩ | ⟨nm, rfl, _, _, _, hlt, _, _, _, hnm⟩
+    · exact fun hne => absurd rfl hne
+    · intro _
+      refine ⟨i, ?_⟩
+      simp only [updF, if_true, hx]
+      have hg' := vgrid_class.setMin iv m ⟨rfl, hgr⟩
+      rw [← hnm] at hg'
+      exact vsize_lt_of_min iv _ hgr hg'.2 rfl rfl hlt
+
+theorem ugRel (κ : Nat → Bool) : StepRel κ (UG κ) where
+  refl := UG.refl κ
+  trans := UG.trans
+  maxF := fun x m c c' r h => ⟨(ushRel vgrid_class κ).maxF x m c c' r h, trySetMax_f_ustr κ c c' x m r h⟩
+  minF := fun x m c c' r h => ⟨(ushRel vgrid_class κ).minF x m c c' r h, trySetMin_f_ustr κ c c' x m r h⟩
+  maxI := fun b hb k c c' r h => ⟨(ushRel vgrid_class κ).maxI b hb k c c' r h, fun hg => by
+    obtain ⟨d, hd⟩ := goodG_int vgrid_class hg hb
+    simp only [FCtx.trySetMax, hd] at h
+    exact intSetMax_ustr κ c c' b d k r hd h hg⟩
+  minI := fun b hb k c c' r h => ⟨(ushRel vgrid_class κ).minI b hb k c c' r h, fun hg => by
+    obtain ⟨d, hd⟩ := goodG_int vgrid_class hg hb
+    simp only [FCtx.trySetMin, hd] at h
+    exact intSetMin_ustr κ c c' b d k r hd h hg⟩
+
+/-- propagators under which grid stores stay on the grid, domains only shrink and every event
+strictly shrinks a variable: all `FloatLin*` propagators (reified ones with an integer reification
+variable) and the branching constraints -/
+abbrev GridStrict (κ : Nat → Bool) (k : FPK Rat) : Prop := PruneRel (UG κ) k
+
+theorem GridStrict.shrinks {κ : Nat → Bool} {k : FPK Rat} (h : GridStrict κ k) : GridShrinks κ k :=
+  fun c c' e => (h c c' e).1
+
+theorem gridStrict_linLe (κ : Nat → Bool) (cs : List Rat) (xs : List Nat) (cst : Rat) : GridStrict κ (.linLe cs xs cst) :=
+  pruneRel_linLe (ugRel κ) cs xs cst
+theorem gridStrict_linEq (κ : Nat → Bool) (cs : List Rat) (xs : List Nat) (cst : Rat) : GridStrict κ (.linEq cs xs cst) :=
+  pruneRel_linEq (ugRel κ) cs xs cst
+theorem gridStrict_linNe (κ : Nat → Bool) (cs : List Rat) (xs : List Nat) (cst : Rat) : GridStrict κ (.linNe cs xs cst) :=
+  pruneRel_linNe (ugRel κ) cs xs cst
+theorem gridStrict_linEqReif (κ : Nat → Bool) (cs : List Rat) (xs : List Nat) (cst : Rat) (b : Nat) (hb : κ b = false) :
+    GridStrict κ (.linEqReif cs xs cst b) := pruneRel_linEqReif (ugRel κ) cs xs cst b hb
+theorem gridStrict_linLeReif (κ : Nat → Bool) (cs : List Rat) (xs : List Nat) (cst : Rat) (b : Nat) (hb : κ b = false) :
+    GridStrict κ (.linLeReif cs xs cst b) := pruneRel_linLeReif (ugRel κ) cs xs cst b hb
+theorem gridStrict_linNeReif (κ : Nat → Bool) (cs : List Rat) (xs : List Nat) (cst : Rat) (b : Nat) (hb : κ b = false) :
+    GridStrict κ (.linNeReif cs xs cst b) := pruneRel_linNeReif (ugRel κ) cs xs cst b hb
+
+theorem gridStrict_branches (κ : Nat → Bool) (st : FStore Rat) (hg : GridK κ st) (p : Nat) (mid : FVal Rat)
+    (hm : (st p).mid = some mid) : GridStrict κ (branchL p mid) ∧ GridStrict κ (branchR p mid) := by
+  apply pruneRel_branches (ugRel κ)
+  rcases mid_kind (st p) mid hm with ⟨iv, r, hx, rfl⟩ | ⟨d, z, hx, rfl⟩
+  · exact Or.inl ⟨r, rfl⟩
+  · right
+    refine ⟨⟨z, rfl⟩, ?_⟩
+    have := hg p; rw [hx] at this; exact this.1
+
+/-! ### the propagation loop terminates -/
+
+theorem qok_fevents (ps : List (FPK Rat)) (evs : List Nat) {q : List Nat} (h : QOK ps.length q) :
+    QOK ps.length (evs.foldl (fun q v => scheduleAll q (fdeps ps v)) q) := by
+  induction evs generalizing q with
+  | nil => exact h
+  | cons v evs ih =>
+    simp only [List.foldl_cons]
+    refine ih (qok_scheduleAll h _ (fun p hp => ?_))
+    obtain ⟨k, hk, _⟩ := (mem_fdeps ps v p).1 hp
+    apply Classical.byContradiction; intro hn
+    rw [List.getElem?_eq_none (by omega)] at hk; cases hk
+
+/-- every trigger variable of every propagator is one of the first `n` variables -/
+def TrigBelow (n : Nat) (ps : List (FPK Rat)) : Prop := ∀ k ∈ ps, ∀ i ∈ k.triggers, i < n
+
+/-- **propagation terminates** (grid stores): with `P` propagators, each of which keeps the grid,
+only shrinks and shrinks strictly on every event, `|agenda| + P·fsize + 1` calls of `prune` suffice -/
+theorem fpropagate_terminates (n : Nat) (κ : Nat → Bool) (ps : List (FPK Rat)) (pol : Policy)
+    (hst : ∀ k ∈ ps, GridStrict κ k) (htr : TrigBelow n ps) :
+    ∀ (fuel : Nat) (q : List Nat) (st : FStore Rat) (cnt : Nat), QOK ps.length q → GridK κ st →
+      q.length + ps.length * fsize n st < fuel → fpropagate n ps pol fuel q st cnt ≠ .fuel := by
+  intro fuel
+  induction fuel with
+  | zero => intro q st cnt _ _ h; omega
+  | succ f ih =>
+    intro q st cnt hq hg hf
+    simp only [fpropagate]
+    cases hpk : pol.pick q with
+    | none => intro h; cases h
+    | some pq =>
+      obtain ⟨p, q'⟩ := pq
+      simp only
+      obtain ⟨hq', hlen⟩ := qok_pick hq hpk
+      cases hk : ps[p]? with
+      | none => exact ih q' st _ hq' hg (by omega)
+      | some k =>
+        simp only
+        have hkm : k ∈ ps := List.mem_of_getElem? hk
+        cases e : k.prune { st := st, ev := [] } with
+        | none => intro h; cases h
+        | some c =>
+          simp only [FStore.ofArray_tab]
+          obtain ⟨ush, ustr⟩ := hst k hkm _ c e
+          obtain ⟨hg', hw⟩ := ush hg
+          have hq'' := qok_fevents ps c.ev hq'
+          apply ih _ c.st _ hq'' hg'
+          by_cases hev : c.ev = []
+          · rw [hev]
+            simp only [List.foldl_nil]
+            have := fsize_mono n κ hg hw
+            have := Nat.mul_le_mul_left ps.length this
+            omega
+          · obtain ⟨i, hi⟩ := ustr hg hev
+            obtain ⟨evs, hevs, hsub, hframe⟩ := FPK.prune_stepR k _ c e
+            have hin : i < n := by
+              apply htr k hkm i
+              apply hsub i
+              apply Classical.byContradiction
+              intro hni
+              have := hframe i hni
+              simp only at this
+              rw [this] at hi
+              exact Nat.lt_irrefl _ hi
+            have hs := fsize_strict n κ hg hw i hin hi
+            have hb := nodup_bounded_length ps.length _ hq''.1 hq''.2
+            have : ps.length * (fsize n c.st + 1) ≤ ps.length * fsize n st := Nat.mul_le_mul_left _ hs
+            rw [Nat.mul_add, Nat.mul_one] at this
+            omega
+
+theorem qok_range (P : Nat) : QOK P (List.range P) :=
+  ⟨List.nodup_range, fun _ hp => List.mem_range.1 hp⟩
+
+/-! ### no propagation of the search exhausts the step budget -/
+
+theorem pivot_lt (n : Nat) (st : FStore Rat) (p : Nat) (hu : ffirstUnassigned n st = some p) : p < n := by
+  simp only [ffirstUnassigned] at hu
+  exact List.mem_range.1 (List.mem_of_find?_eq_some hu)
+
+theorem trigBelow_snoc {n : Nat} {ps : List (FPK Rat)} {bp : FPK Rat} (h : TrigBelow n ps) (hb : ∀ i ∈ bp.triggers, i < n) :
+    TrigBelow n (ps ++ [bp]) := by
+  intro k hk
+  rcases List.mem_append.1 hk with hk | hk
+  · exact h k hk
+  · have : k = bp := by simpa using hk
+    subst this; exact hb
+
+theorem branch_triggers (p : Nat) (mid : FVal Rat) (i : Nat) :
+    (i ∈ (branchL p mid).triggers → i = p) ∧ (i ∈ (branchR p mid).triggers → i = p) := by
+  constructor <;> intro h <;> simpa [branchL, branchR, FPK.triggers, FView.underlying] using h
+
+/-- along every path `(number of propagators) + fsize ≤ M` and `fsize ≤ S`; with `M·S + 1 < pf` no
+propagation inside the search runs out of its budget -/
+theorem search_no_pfuel (n : Nat) (κ : Nat → Bool) (pol : Policy) (pf M S : Nat) (hpf : M * S + 1 < pf) :
+    ∀ (fuel : Nat),
+      (∀ (ps : List (FPK Rat)) (st : FStore Rat) (pc nc : Nat),
+        (∀ k ∈ ps, GridStrict κ k) → TrigBelow n ps → GridK κ st → (∀ k ∈ ps, FStable k st) →
+        ps.length + fsize n st ≤ M → fsize n st ≤ S →
+        fexplore n pol pf fuel ps st pc nc ≠ .pfuel) ∧
+      (∀ (ps : List (FPK Rat)) (st : FStore Rat) (pc nc : Nat) (bp : FPK Rat),
+        (∀ k ∈ ps, GridStrict κ k) → TrigBelow n ps → GridStrict κ bp → (∀ i ∈ bp.triggers, i < n) →
+        GridK κ st → (∀ k ∈ ps, FStable k st) →
+        (∀ st', Within st st' → GridK κ st' → FStable bp st' → fsize n st' < fsize n st) →
+        ps.length + fsize n st ≤ M → fsize n st ≤ S → 1 ≤ fsize n st →
+        fbranchStep n pol pf fuel ps st pc nc bp ≠ .pfuel) := by
+  intro fuel
+  induction fuel with
+  | zero =>
+    constructor
+    · intro ps st pc nc _ _ _ _ _ _; rw [fexplore_zero]; simp
+    · intro ps st pc nc bp _ _ _ _ _ _ _ _ _ _; rw [fbranchStep_zero]; simp
+  | succ f ih =>
+    constructor
+    · intro ps st pc nc hsh htr hg hst hM hS
+      rw [fexplore_succ]
+      cases hu : ffirstUnassigned n st with
+      | none => simp
+      | some pivot =>
+        simp only
+        cases hm : (st pivot).mid with
+        | none => simp
+        | some mid =>
+          simp only
+          have hpos := fsize_pos_of_unassigned n κ st hg pivot hu
+          have hpn := pivot_lt n st pivot hu
+          obtain ⟨shL, shR⟩ := gridStrict_branches κ st hg pivot mid hm
+          have hL := ih.2 ps st pc (nc + 2) (branchL pivot mid) hsh htr shL
+            (fun i hi => by rw [(branch_triggers pivot mid i).1 hi]; exact hpn) hg hst
+            (fun st' hw hg' hs => branch_cuts n κ st hg pivot hu mid hm _ (Or.inl rfl) st' hw hg' hs) hM hS hpos
+          have hR := ih.2 ps st pc (nc + 3) (branchR pivot mid) hsh htr shR
+            (fun i hi => by rw [(branch_triggers pivot mid i).2 hi]; exact hpn) hg hst
+            (fun st' hw hg' hs => branch_cuts n κ st hg pivot hu mid hm _ (Or.inr rfl) st' hw hg' hs) hM hS hpos
+          cases hl : fbranchStep n pol pf f ps st pc (nc + 2) (branchL pivot mid) with
+          | nosol => exact hR
+          | pfuel => exact absurd hl hL
+          | sol _ _ _ => simp
+          | fuel => simp
+          | panic => simp
+    · intro ps st pc nc bp hsh htr hbp hbtr hg hst hcut hM hS hpos
+      rw [fbranchStep_succ]
+      have hall : ∀ k ∈ ps ++ [bp], GridStrict κ k := by
+        intro k hk
+        rcases List.mem_append.1 hk with hk | hk
+        · exact hsh k hk
+        · have : k = bp := by simpa using hk
+          subst this; exact hbp
+      have htr' := trigBelow_snoc htr hbtr
+      have hterm := fpropagate_terminates n κ (ps ++ [bp]) pol hall htr' pf [ps.length] st pc
+        ⟨by simp, by intro p hp; have : p = ps.length := by simpa using hp
+                     subst this; simp⟩ hg (by
+          have h1 : (ps ++ [bp]).length ≤ M := by simp; omega
+          have := Nat.mul_le_mul h1 hS
+          simp only [List.length_singleton]
+          omega)
+      cases hp : fpropagate n (ps ++ [bp]) pol pf [ps.length] st pc with
+      | fail => simp
+      | fuel => exact absurd hp hterm
+      | ok st' pc1 =>
+        simp only
+        have inv := fpropagate_inv n (ps ++ [bp]) pol (fun s => GridK κ s ∧ Within st s)
+          (fun k hk c c' hc hr => by
+            obtain ⟨g, w⟩ := (hall k hk c c' hr).1 hc.1
+            exact ⟨g, hc.2.trans w⟩) pf [ps.length] st pc st' pc1 ⟨hg, Within.refl _⟩ hp
+        have fix := fpropagate_fixpoint n (ps ++ [bp]) pol pf [ps.length] st pc st' pc1 (fagendaInv_branch ps bp st hst) hp
+        have hst' : ∀ k ∈ ps ++ [bp], FStable k st' := by
+          intro k hk
+          obtain ⟨p, hp'⟩ := mem_of_getElem?' hk
+          exact fix p k hp'
+        have hlt := hcut st' inv.2 inv.1 (hst' bp (by simp))
+        cases hu : ffirstUnassigned n st' with
+        | none => simp
+        | some q =>
+          simp only
+          exact ih.1 (ps ++ [bp]) st' pc1 nc hall htr' inv.1 hst' (by simp; omega) (by omega)
+
+/-- a propagation budget that suffices for `fsolve` on a model with `P` propagators and total size `s` -/
+def pfNeed (P s : Nat) : Nat := (P + s) * s + P + 2
+
+/-- **`fsolve` terminates** (grid models): with depth fuel `≥ 2·fsize + 1` and propagation budget
+`≥ pfNeed P fsize` the answer is `sol` or `nosol` -/
+theorem fsolve_terminates (n : Nat) (κ : Nat → Bool) (pol : Policy) (pf fuel : Nat) (ps : List (FPK Rat)) (st0 : FStore Rat)
+    (hsh : ∀ k ∈ ps, GridStrict κ k) (htr : TrigBelow n ps) (hg : GridK κ st0)
+    (hfuel : 2 * fsize n st0 + 1 ≤ fuel) (hpf : pfNeed ps.length (fsize n st0) ≤ pf) :
+    (fsolve n pol pf fuel ps st0).Ends ∧ fsolve n pol pf fuel ps st0 ≠ .pfuel := by
+  refine ⟨fsolve_depth_bound n κ pol pf fuel ps st0 (fun k hk => (hsh k hk).shrinks) hg hfuel, ?_⟩
+  simp only [pfNeed] at hpf
+  simp only [fsolve]
+  have hterm := fpropagate_terminates n κ ps pol hsh htr pf (List.range ps.length) st0 0 (qok_range _) hg (by
+    simp only [List.length_range]
+    have : ps.length * fsize n st0 ≤ (ps.length + fsize n st0) * fsize n st0 := Nat.mul_le_mul_right _ (by omega)
+    omega)
+  cases hp : fpropagate n ps pol pf (List.range ps.length) st0 0 with
+  | fail => simp
+  | fuel => exact absurd hp hterm
+  | ok st' pc1 =>
+    simp only
+    have inv := fpropagate_inv n ps pol (fun s => GridK κ s ∧ Within st0 s)
+      (fun k hk c c' hc hr => by
+        obtain ⟨g, w⟩ := (hsh k hk c c' hr).1 hc.1
+        exact ⟨g, hc.2.trans w⟩) pf _ st0 0 st' pc1 ⟨hg, Within.refl _⟩ hp
+    have fix := fpropagate_fixpoint n ps pol pf _ st0 0 st' pc1 (fagendaInv_all ps st0) hp
+    have hst' : ∀ k ∈ ps, FStable k st' := by
+      intro k hk
+      obtain ⟨p, hp'⟩ := mem_of_getElem?' hk
+      exact fix p k hp'
+    have hle := fsize_mono n κ hg inv.2
+    cases hu : ffirstUnassigned n st' with
+    | none => simp
+    | some q =>
+      simp only
+      exact (search_no_pfuel n κ pol pf (ps.length + fsize n st0) (fsize n st0) (by omega) fuel).1 ps st' pc1 0
+        hsh htr inv.1 hst' (by omega) hle
 
 end Selen
